@@ -260,4 +260,149 @@ def rule_dead_before_return(P):
     return R
 
 
-RULES = [rule_recycle_gate, rule_node_items, rule_dead_before_return]
+def _corr_path(g, must_pass, sink, guard_edges):
+    """witness path entry → must_pass → sink that crosses none of guard_edges, under a small amount of
+    path sensitivity: local flags defined as conjunctions (`const bool f = !g && (a == b) && …`) are forked
+    at their definition (true: the conjuncts hold; false), `if (f)` follows only the consistent arm, and
+    `x == y` / `x != y` tests over plain variables are decided by the equalities gathered so far."""
+    import re as _re
+    from collections import deque
+
+    def find(eqs, x):
+        for _ in range(20):
+            nx = eqs.get(x, x)
+            if nx == x:
+                return x
+            x = nx
+        return x
+
+    def add_eq(eqs, dis, a, b):
+        ra, rb = find(eqs, a), find(eqs, b)
+        if ra == rb:
+            return eqs, dis
+        for (p, q) in dis:
+            if {find(eqs, p), find(eqs, q)} == {ra, rb}:
+                return None
+        e = dict(eqs)
+        e[max(ra, rb)] = min(ra, rb)
+        return e, dis
+
+    def add_dis(eqs, dis, a, b):
+        if find(eqs, a) == find(eqs, b):
+            return None
+        return eqs, dis | {(a, b)}
+
+    def key(n, seen, flags, eqs, dis):
+        return (n, seen, tuple(sorted(flags.items())), tuple(sorted(eqs.items())), tuple(sorted(dis)))
+
+    flagdefs = {}
+    for n in g.nodes:
+        if n.kind == "ldef" and n.ev.get("rhs") and not n.ev.get("ptr"):
+            flagdefs.setdefault(n.ev["var"], []).append(n)
+    flagdefs = {v: ns[0] for v, ns in flagdefs.items() if len(ns) == 1 and ("&&" in ns[0].ev["rhs"] or ns[0].ev["rhs"].lstrip().startswith("!")) and "||" not in ns[0].ev["rhs"]}
+
+    start = (g.entry, False, {}, {}, frozenset())
+    prev = {key(*start): None}
+    dq = deque([start])
+    while dq:
+        st = dq.popleft()
+        x, seen, flags, eqs, dis = st
+        n = g.nodes[x]
+        if n.id in must_pass:
+            seen = True
+        if seen and sink(n):
+            out = []
+            k = key(*st)
+            while k is not None:
+                out.append(g.nodes[k[0]])
+                k = prev[k]
+            return out[::-1]
+        branches = [(flags, eqs, dis)]
+        if n.kind == "ldef" and n.ev["var"] in flagdefs and flagdefs[n.ev["var"]].id == n.id:
+            rhs = n.ev["rhs"]
+            t_flags, t_eqs, t_dis = dict(flags), eqs, dis
+            t_flags[n.ev["var"]] = True
+            ok = True
+            for a, b in _re.findall(r"\b([A-Za-z_]\w*)\s*==\s*([A-Za-z_]\w*)\b", rhs):
+                r = add_eq(t_eqs, t_dis, a, b)
+                if r is None:
+                    ok = False
+                    break
+                t_eqs, t_dis = r
+            for neg in _re.findall(r"!\s*([A-Za-z_]\w*)\b", rhs):
+                if t_flags.get(neg) is True:
+                    ok = False
+                t_flags[neg] = False
+            f_flags = dict(flags)
+            f_flags[n.ev["var"]] = False
+            branches = ([(t_flags, t_eqs, t_dis)] if ok else []) + [(f_flags, eqs, dis)]
+        for flags2, eqs2, dis2 in branches:
+            for s, i in n.succ:
+                if (n.id, i) in guard_edges:
+                    continue
+                nf, ne, nd = flags2, eqs2, dis2
+                if n.kind == "branch" and n.cond and len(n.succ) == 2:
+                    c = n.cond
+                    truth = (i == 0)
+                    if c.get("op") == "truth" and len(c["l"]["refs"]) == 1 and c["l"]["text"].strip("!() ") == c["l"]["refs"][0]:
+                        v = c["l"]["refs"][0]
+                        val = truth != bool(c.get("neg"))
+                        if v in flags2 and flags2[v] != val:
+                            continue
+                        if v in flagdefs or v in flags2:
+                            nf = dict(flags2)
+                            nf[v] = val
+                    elif c.get("op") in ("==", "!=") and len(c["l"]["refs"]) == 1 and len(c["r"]["refs"]) == 1 and "const" not in c["l"] and "const" not in c["r"] \
+                            and c["l"]["text"].strip("() ") == c["l"]["refs"][0] and c["r"]["text"].strip("() ") == c["r"]["refs"][0]:
+                        a, b = c["l"]["refs"][0], c["r"]["refs"][0]
+                        is_eq = ((c["op"] == "==") == truth) != bool(c.get("neg"))
+                        r = add_eq(eqs2, dis2, a, b) if is_eq else add_dis(eqs2, dis2, a, b)
+                        if r is None:
+                            continue
+                        ne, nd = r
+                ns = (s, seen, nf, ne, nd)
+                k = key(*ns)
+                if k not in prev:
+                    prev[k] = key(*st)
+                    dq.append(ns)
+    return None
+
+
+IDENTITY_FILES = ("operations/union.cc", "operations/intersection.cc", "operations/difference.cc", "operations/compare.cc", "operations/arith_templ.h")
+
+
+def rule_identity(P):
+    R = RuleResult("ct.identity", "a result computed from an operand that was expanded as an identity pattern (initIdentity with the incoming index, which is not part of the key) is never added to the compute table: every path from initIdentity to addCT crosses the `!wasIdentity()` arm for that node")
+    for f in sorted(P.fns.values(), key=lambda f: (f["file"], f["line"], f["inst"])):
+        if f["file"] not in IDENTITY_FILES or not f.get("cfg"):
+            continue
+        g = Graph(f)
+        inits = [n for n in g.nodes if n.kind == "call" and qmatch(n.ev["q"], "unpacked_node::initIdentity") and n.ev.get("recv")]
+        adds = [n for n in g.nodes if n.kind == "call" and qmatch(n.ev["q"], "ct_entry_type::addCT")]
+        if not inits or not adds:
+            continue
+        R.functions.add(f["inst"])
+        for X in sorted({n.ev["recv"] for n in inits}):
+            guards = set()
+            for n in g.nodes:
+                if n.kind == "branch" and n.cond and len(n.succ) == 2 and any(c.endswith("unpacked_node::wasIdentity") for c in n.cond["calls"]) and X in n.cond["refs"] and n.cond.get("op") == "truth":
+                    was_true = 1 if n.cond.get("neg") else 0
+                    # after X->initIdentity(), X->wasIdentity() holds: the only arm a real execution can take is the
+                    # "was identity" arm.  Block the other arm; any path that still reaches addCT either by-passes the
+                    # test or goes through the identity arm.
+                    guards.add((n.id, 1 - was_true))
+            R.paths += 1
+            must = {n.id for n in inits if n.ev["recv"] == X}
+            p = _corr_path(g, must, lambda n: n in adds, guards)
+            iid = "%s: results built from identity-expanded %s are not cached" % (f["inst"].replace(M, "")[:90], X)
+            if p:
+                R.fail(iid, where(f, p[-1].line), Finding(R.rule, f["file"], base_name(f["q"]), "addCT/" + X,
+                       "a result that depends on the incoming index (operand %s expanded by initIdentity) can be added to the compute table, whose key does not contain that index: a later hit returns it for a different index" % X,
+                       p[-1].line, show_path(p), inst=f["inst"]))
+            else:
+                R.ok(iid, where(f, adds[0].line), guards=len(guards))
+    R.require_floor(16, "identity-expandable operand nodes")
+    return R
+
+
+RULES = [rule_recycle_gate, rule_node_items, rule_dead_before_return, rule_identity]
